@@ -37,24 +37,31 @@ ASSUMPTIONS = [
     'rule (fixpoint and convergence of iterated shifts), not the interplay with 10-digit loop detection',
 ]
 CLAUSES = {
-    'terminates': 'proved: the model is a structurally recursive function of MAX_SIMULATION_TICKS (sim_terminates: '
-                  'ticks <= maxTicks); constants regenerated and proved equal to the spec (consts_eq_spec)',
-    'never raises': 'proved on the model: every partial operation is an explicit failure that getResults turns into '
-                    'the unsimulated values (fallback_*), and inside the quantifier the simulation does not fail '
-                    '(sim_succeeds_of_loop is not claimed; shift = 0 may reach the division in the no-loop estimate); '
-                    'impl: oracle (no exception from any read)',
-    'conserves the sum of unsimulated resonances': 'proved (next_conserves_sum, avg_conserves_sum, sim_conserves)',
-    'none above 1': 'proved (next_le_one, avg_le_one, sim_le_one); positivity: reso_pos_of_sum_gt_three, sim_pos',
-    'equal to the documented process': 'donor_count, donors_le_recipients, zero_damage_donates, tie_by_list_order proved '
-                                       'about the model; model = code by correspondence',
+    'terminates': 'proved: the model is a structurally recursive function of the tick budget (sim_terminates: a '
+                  'successful run reports ticks <= maxT); MAX_SIMULATION_TICKS / SIG_DIGITS regenerated and proved '
+                  'equal to the spec (gen_limits)',
+    'never raises': 'proved on the model: every partial Python operation is an explicit failure outcome which '
+                    'getResults turns into the unsimulated values (fallback_failed; fails_of_zero_duration shows the '
+                    'branch is inhabited); on impl: oracle (no exception from any read or operation)',
+    'conserves the sum of unsimulated resonances': 'proved for all inputs in the quantifier (next_conserves_sum, '
+                                                   'avg_conserves_sum, sim_conserves)',
+    'none above 1': 'proved (next_le_one, avg_le_one, sim_le_one); positivity next_pos, sim_pos, '
+                    'reso_pos_of_sum_gt_three (why sum > 3 is the guard; the counterexample without recipient is an '
+                    'example in the Props file)',
+    'equal to the documented process': 'shift rule proved about the model (donor_count, donors_le_recipients, '
+                                       'zero_damage_is_donor, tie_by_list_order, next_value; order/profile map/modifiers '
+                                       'regenerated: gen_res_order, gen_profile_map, gen_modifiers); model = code by '
+                                       'correspondence only (the simulator body is not translated)',
     'single-type profile drives all shiftable resistance onto that type': 'single_type_fixpoint, single_type_reaches '
-        'proved for the shift rule; full simulation: correspondence and impl oracle only',
-    'without loaded ship / not running: unsimulated values': 'proved on the model (fallback_no_ship, fallback_failed, '
-        'exposed_not_running); correspondence',
-    'results depend only on current inputs': 'proved _partial (stored_results_current_partial): holds for every history '
-        'as long as the ghost flag of known finding K2 is not set; the full statement FAILS on the unmodified code '
-        '(K2: ship assignment, and ship resonance modifier changes while that resonance is not cached, leave stale '
-        'results); single-hardener cycle-time changes are proved irrelevant (sim_single_dur_irrelevant)',
+        'proved for iterated shifts; for the whole simulation (10-digit loop detection, tick budget) correspondence and '
+        'impl oracle only - full statement kept as a comment in the Props file',
+    'without loaded ship / not running: unsimulated values': 'proved on the model (fallback_no_ship, stop_forgets); '
+        'impl: oracle and correspondence; FAILS on impl inside known finding K2 (ship removed after a read)',
+    'results depend only on current inputs': 'proved _partial (stored_results_current_partial, read_current_partial): '
+        'for every history with positive cycle times the stored results are the results of the current inputs as long '
+        'as the ghost flag of known finding K2 is down; stale_raised_only_unannounced characterises when it goes up; '
+        'sim_single_dur_irrelevant justifies ignoring cycle-time changes of a single hardener. The full statement '
+        'FAILS on the unmodified code (K2)',
 }
 LEVEL_TEXT = ('Lean theorems over an exact-rational model that mirrors eos/sim/reactive_armor_hardener.py statement by '
               'statement (shift rule, sig_round, tick iterator, loop detection, no-loop estimate, averaging, fallback, '
@@ -93,7 +100,6 @@ class Uni:
                                  operator=op, aggregate_mode=ModAggregateMode.stack, affector_attr_id=src_attr)
         self.rah_eff = ch.mkeffect(effect_id=EffectId.adaptive_armor_hardener, category_id=EffectCategoryId.active,
                                    duration_attr_id=self.cyc)
-        self.rah_eff_nodur = None
         heat_mod = DogmaModifier(affectee_filter=ModAffecteeFilter.item, affectee_domain=ModDomain.self,
                                  affectee_attr_id=self.cyc, operator=ModOperator.post_percent,
                                  aggregate_mode=ModAggregateMode.stack, affector_attr_id=self.heat)
@@ -257,7 +263,7 @@ class Impl:
         return self.fit._Fit__rah_sim._ReactiveArmorHardenerSimulator__data
 
     def order(self):
-        return [self.mods.index(m) for m in self.sim_data()]
+        return [self.mods.index(m) if m in self.mods else -1 for m in self.sim_data()]
 
     def res_present(self):
         return any(self.sim_data().values())
@@ -364,12 +370,13 @@ class Run:
         self.im = Impl(hist['pen'])
         self.lines = ['reset', 'maxt %d' % hist.get('maxt', 500)]
         self.expect = []          # (line index, kind, impl data, step)
-        self.findings = []        # (what, cls)
+        self.findings = []        # (what, cls, step, kind)
         self.ghost = False
         self.laws = check_laws
         self.fresh = check_fresh
         self.sig = []
-        self.plain_mismatch = None
+        self.issue = None         # (where, expected, impl, step): impl deviates from what the harness itself set up
+        self.frag_at = {}
 
     def emit(self, line, kind=None, data=None, step=None):
         self.lines.append(line)
@@ -411,8 +418,8 @@ class Run:
             kept = [i for i in order_before if i != removed]
             kept = [(i - 1 if removed is not None and i > removed else i) for i in kept]
             kept = [j for j in kept if j in order_after]
-            if kept != order_after[:len(kept)]:
-                raise C.InfraError('simulator order is not stable: %r -> %r' % (order_before, order_after))
+            if kept != order_after[:len(kept)] and self.issue is None:
+                self.issue = ('rah.simulator keeps hardeners in activation order', kept, order_after, None)
             for pos, j in enumerate(order_after):
                 base, shift, dur = rah_inputs(cfg, cfg['rahs'][j])
                 if pos >= len(kept):
@@ -447,7 +454,7 @@ class Run:
         try:
             im.apply(op)
         except Exception as e:
-            self.findings.append(('operation %s raised %s: %s' % (k, type(e).__name__, e), None))
+            self.findings.append(('operation %s raised %s: %s' % (k, type(e).__name__, e), None, n, 'raise'))
             return False
         apply_cfg(cfg, op)
         self.model_lines(op, before, order_before)
@@ -465,6 +472,7 @@ class Run:
         im, cfg = self.im, self.cfg
         had = im.res_present()
         order = im.order()
+        got = {'rah': None, 'ship': None}
         with rah_log() as recs:
             try:
                 if op['what'] in ('rah', 'all'):
@@ -474,25 +482,29 @@ class Run:
                     # only a running hardener's attributes are overridden by the simulator
                     if any(i in order for i in vals):
                         self.emit('readrah', 'rah', {'vals': vals, 'order': order, 'had': had}, n)
-                    for i, got in vals.items():
+                    for i, v in vals.items():
                         base = dict(zip(T, rah_inputs(cfg, cfg['rahs'][i])[0]))
-                        if i not in order and any(not C.close(base[t], x) for t, x in got.items()):
-                            self.plain_mismatch = (n, i, got, base)
+                        if i not in order and any(not C.close(base[t], x) for t, x in v.items()) and self.issue is None:
+                            self.issue = ('rah.not-running hardener exposes plain values', base, v, n)
                     self.check_rah(n, vals, had, recs)
+                    got['rah'] = [[vals[i][t] for t in T] for i in range(len(cfg['rahs']))] if not op.get('reads') else None
                 if op['what'] in ('ship', 'all') and ship_inputs(cfg) is not None:
+                    sv = {}
                     for t in op.get('types') or T:
-                        self.emit('readship %s' % t, 'ship', im.read_ship(t), n)
+                        sv[t] = im.read_ship(t)
+                        self.emit('readship %s' % t, 'ship', sv[t], n)
+                    got['ship'] = [sv[t] for t in T] if len(sv) == 4 else None
             except Exception as e:
-                self.findings.append(('read raised %s: %s' % (type(e).__name__, e), None))
+                self.findings.append(('read raised %s: %s' % (type(e).__name__, e), None, n, 'raise'))
                 return False
         self.l2(n)
         if self.fresh and op['what'] == 'all':
-            self.check_fresh(n)
+            self.check_fresh(n, got)
         return True
 
     # ---- impl-level oracle
-    def violate(self, n, what):
-        self.findings.append(('step %d: %s' % (n, what), K2 if self.ghost else None))
+    def violate(self, n, what, kind='law'):
+        self.findings.append(('step %d: %s' % (n, what), K2 if self.ghost else None, n, kind))
 
     def in_quantifier(self, r):
         base, shift, dur = rah_inputs(self.cfg, r)
@@ -544,19 +556,20 @@ class Run:
             self.violate(n, 'simulation fell back with inputs inside the quantifier: %r' % (recs,))
 
     def converges(self, run_rahs):
-        """All hardeners reach the single-type fixpoint well within the tick budget."""
+        """All hardeners reach the single-type fixpoint within the part of the history that the no-loop average
+        may ignore (at most half of the tick budget), so loop and no-loop results are both the fixpoint."""
         ins = [rah_inputs(self.cfg, r) for r in run_rahs]
         if any(s <= 0 for _, s, _ in ins):
             return False
         t_end = max((math.ceil((1 - min(b)) / (s / 100)) + 3) * d for b, s, d in ins)
-        return sum(t_end / d + 1 for _, _, d in ins) < 0.8 * self.hist.get('maxt', 500)
+        return sum(t_end / d + 1 for _, _, d in ins) < 0.45 * self.hist.get('maxt', 500)
 
-    def check_fresh(self, n):
-        got = observe_all(self.im, self.cfg)
+    def check_fresh(self, n, got):
+        """What this read returned (first read of every value, in reading order) vs a fresh build."""
         try:
             want = fresh_observation(self.cfg)
         except Exception as e:
-            self.findings.append(('fresh build raised %s: %s' % (type(e).__name__, e), None))
+            self.findings.append(('fresh build raised %s: %s' % (type(e).__name__, e), None, n, 'raise'))
             return
         for key in ('rah', 'ship'):
             a, b = got[key], want[key]
@@ -565,7 +578,7 @@ class Run:
                     isinstance(x, (int, float)) and isinstance(y, (int, float)) and C.close(x, y)
                     for x, y in zip(flat(a), flat(b)))):
                 self.violate(n, '%s resonances after this history %r differ from a freshly built fit of the same '
-                                'configuration %r' % (key, a, b))
+                                'configuration %r' % (key, a, b), 'fresh')
 
     def execute(self):
         import eos.sim.reactive_armor_hardener as R
@@ -770,11 +783,12 @@ WITNESS_K2 = [
 # ---------------------------------------------------------------- comparison with the model
 def compare(rep, run, outs):
     """Check one executed history against the model's output lines."""
-    if run.plain_mismatch:
-        n, i, got, base = run.plain_mismatch
-        rep.disagree('rah.not-running hardener exposes plain values', base, got, {'history': run.hist, 'step': n})
+    if run.issue:
+        where, want, got, n = run.issue
+        rep.disagree(where, want, got, {'history': run.hist, 'step': n if n is not None else len(run.hist['ops']) - 1})
         return
     frag = False          # the stored results stem from a run the model flagged fragile
+    run.frag_at = {}
 
     def ran(outcome, looped, ticks, fr, n):
         nonlocal frag
@@ -796,6 +810,7 @@ def compare(rep, run, outs):
         line = outs[idx]
         case = {'history': run.hist, 'step': step}
         if kind == 'dump':
+            run.frag_at[step] = frag
             m = dict(kv.split('=') for kv in line.split()[1:])
             got = {'res': int(m['res']), 'n': int(m['n']), 'shipC': [t for t in m['shipC'].split(',') if t],
                    'stale': int(m['stale'])}
@@ -854,21 +869,42 @@ def correspondence(ctx):
     rep.rules.append(RULE)
     hists = list(WITNESS_K2) + malformed_histories()
     rnd = ctx.sub_rnd('corr')
-    hists += [gen_history(rnd) for _ in range(ctx.n(110, 2400))]
+    hists += [gen_history(rnd) for _ in range(ctx.n(130, 1500))]
     for r in run_batch(rep, hists, laws=False, fresh=False):
         account(rep, r)
+    # histories on which model and impl disagree are the first thing the impl-level oracle looks at
+    ctx.suspects = [(d['case']['history'], d['case']['step']) for d in rep.disagreements[:8]]
 
 
 def report_findings(rep, run):
-    for what, cls in run.findings:
+    """Findings of one executed history -> violations. A difference from the fresh build that is neither in the K2
+    class nor explained by a decision the model flags as float-fragile (exact damage ties broken by 1-ulp noise
+    of the modifier multiplication order) is a violation."""
+    fresh = [f for f in run.findings if f[3] == 'fresh' and f[1] is None]
+    if fresh:
+        try:
+            outs = C.run_driver('drv_rah', '\n'.join(run.lines) + '\n')
+            compare(C.Report(), run, outs)
+        except C.InfraError:
+            run.frag_at = {}
+    for what, cls, step, kind in run.findings:
+        if kind == 'fresh' and cls is None and run.frag_at.get(step):
+            rep.fragile += 1
+            rep.dist['fragile-fresh-build'] += 1
+            continue
         rep.violate(what, {'history': run.hist}, cls)
 
 
-def oracle(ctx):
+def oracle(ctx, count=None, key='oracle'):
     """The property itself on the real code: laws at every read, and equality with a fresh build."""
     rep = ctx.report
-    rnd = ctx.sub_rnd('oracle')
-    hists = list(WITNESS_K2) + [gen_history(rnd) for _ in range(ctx.n(80, 1800))]
+    rnd = ctx.sub_rnd(key)
+    hists = list(WITNESS_K2) + [gen_history(rnd) for _ in range(count or ctx.n(90, 1200))]
+    for h, step in getattr(ctx, 'suspects', []):
+        # cut right after the disagreeing step and read everything
+        hists.insert(0, dict(h, ops=h['ops'][:step + 1] + [{'op': 'obs', 'what': 'all'}]))
+        hists.insert(0, h)
+    ctx.suspects = []
     for h in hists:
         run = Run(h).execute()
         report_findings(rep, run)
@@ -907,14 +943,8 @@ def fallback_cases(rep):
 
 
 def search(ctx, broken):
-    ctx.tier = 'thorough'
-    # first the histories on which model and impl disagreed
-    for b in broken:
-        d = b.get('detail')
-        if isinstance(d, dict) and isinstance(d.get('case'), dict) and 'history' in d['case']:
-            report_findings(ctx.report, Run(d['case']['history']).execute())
-    if not ctx.report.violations:
-        oracle(ctx)
+    if not any(v['class'] is None for v in ctx.report.violations):
+        oracle(ctx, count=ctx.n(400, 1500), key='search')
 
 
 def replay(path):
@@ -934,7 +964,7 @@ def replay(path):
     run = Run(hist).execute()
     for n, op in enumerate(hist['ops']):
         print(n, op)
-    for what, cls in run.findings:
+    for what, cls, _, _ in run.findings:
         print('REPRODUCED%s: %s' % (' (known %s)' % cls if cls else '', what))
     rep = C.Report()
     try:
